@@ -291,6 +291,8 @@ def arith (W : Nat) (op form a b : String) : Option String := do
     | "add" => do let y ← parseNat b; pure (fragAdd W (← parseForm form) xs (natWords W y), some (natWords W y))
     | "sub" => do let y ← parseNat b; pure (fragSub W (← parseForm form) xs (natWords W y), some (natWords W y))
     | "mul" => do let y ← parseNat b; pure (fragMul W 30 (← parseForm form) xs (natWords W y), some (natWords W y))
+    | "div" => do let y ← parseNat b; pure (fragDivRem W false (← parseForm form) xs (natWords W y), some (natWords W y))
+    | "rem" => do let y ← parseNat b; pure (fragDivRem W true (← parseForm form) xs (natWords W y), some (natWords W y))
     | "shl" => do
       let k ← parseDecNat b
       let byVal ← (if form = "v" then some true else if form = "r" then some false else none)
